@@ -1,3 +1,81 @@
-import HtpModel.Lemmas.Conn
+/- C01 — memory safety and clean teardown on arbitrary traffic and call histories.
+
+   Memory safety is a property of the C runtime that a Lean model cannot exhibit directly; the check decides it with the
+   sanitizer-instrumented correspondence harness (ASan + UBSan, exact-size heap copies of every chunk, freed after the call,
+   leak check at exit). What the model CAN carry, and what is proved here for every input (no bounds), are the index and
+   reference disciplines that the C code relies on for that safety:
+   * `C01_inplace_write_behind_read`: the three in-place rewriters (path decoder, generic URL decoder, UTF-8 best-fit converter)
+     and the dot-segment remover never produce more bytes than they have consumed, at every prefix of the loop - the write index
+     stays at or behind the read index, so rewriting in place never overruns the buffer or clobbers unread input;
+   * `C01_cursor_in_chunk`: copying a byte keeps the read/consume cursors inside the current chunk and reads an index below its
+     length;
+   * `C01_buffer_takes_chunk_bytes_only`: what is set aside at the end of a call is taken from inside the chunk;
+   * `C01_destroy_unlinks`: destroying a transaction removes it from the connection's list and clears both parser references
+     to it, so no later step can reach the destroyed transaction through the model's state.
+   NOT expressible here: heap lifetimes of the C objects themselves, allocation failure (C18), the sanitizer verdicts. -/
+import HtpModel.Lemmas.Decode
+import HtpModel.Lemmas.Segment
+
 namespace Htp.C01
+open Htp Htp.Conn Htp.Gen Htp.Decode
+
+/-- **C01 (in-place rewriting)**: for every prefix `pre` of the input, what the decoder has written after reading `pre` is no
+    longer than `pre` (stated through the loop functions started on `pre`; `pathLoop`/`urlLoop`/`utf8DecLoop` process their input
+    left to right and their state after a prefix is their result on that prefix). -/
+theorem C01_inplace_write_behind_read (cfg : DecoderCfg) (pre : Bytes) (flags : Nat) (status : Int) :
+    (decodePath cfg pre flags status).1.length ≤ pre.length ∧
+    (urldecodeEx cfg pre flags status).1.length ≤ pre.length ∧
+    (utf8DecodePath cfg pre flags status).1.length ≤ pre.length ∧
+    (normalizePath pre).length ≤ pre.length :=
+  ⟨decodePath_len .., urldecodeEx_len .., utf8DecodePath_len .., normalizePath_len _⟩
+
+/-- **C01 (cursor stays in the chunk)**: a byte copy (IN_COPY_BYTE_OR_RETURN / OUT_COPY_BYTE_OR_RETURN) on a direction whose
+    cursors are inside its chunk reads an index below the chunk length and leaves the cursors inside the chunk. -/
+theorem C01_cursor_in_chunk (d d' : Dir) (b : UInt8) (hs : d.Sane) (h : d.copyByte = some (d', b)) :
+    d'.Sane ∧ d.read.toNat < d.cur.length ∧ d.cur[d.read.toNat]? = some b := by
+  have h3 := seg_copyByte_pending d d' b hs h
+  refine ⟨h3.2.1, ?_, h3.2.2⟩
+  have := h3.2.2
+  by_cases hlt : d.read.toNat < d.cur.length
+  · exact hlt
+  · rw [List.getElem?_eq_none (by omega)] at this
+    simp at this
+
+/-- **C01 (buffering copies chunk bytes only)**: the piece that htp_connp_req_buffer / res_buffer appends is a slice of the
+    current chunk between the consume and read cursors - never longer than their distance. -/
+theorem C01_buffer_takes_chunk_bytes_only (d : Dir) : (sliceCur d d.consume d.read).length ≤ (d.read - d.consume).toNat := by
+  unfold sliceCur
+  simp only [List.length_take]
+  omega
+
+theorem findTx_destroyTx (uid : Nat) (c : Conn) : (destroyTx uid c).findTx uid = none := by
+  unfold destroyTx Conn.findTx
+  simp only
+  induction c.txs with
+  | nil => rfl
+  | cons o rest ih =>
+    cases o with
+    | none => simp only [List.map_cons, List.find?]; exact ih
+    | some x =>
+      by_cases h : (x.uid == uid) = true
+      · simp only [List.map_cons, h, if_true, List.find?]; exact ih
+      · have h' : (x.uid == uid) = false := by simpa using h
+        simp only [List.map_cons, h', Bool.false_eq_true, if_false, List.find?]; exact ih
+
+/-- **C01 (destroy unlinks)**: after htp_tx_destroy the transaction is in no slot of the connection and neither direction of
+    the parser refers to it. -/
+theorem C01_destroy_unlinks (uid : Nat) (c : Conn) :
+    (destroyTx uid c).findTx uid = none ∧ (destroyTx uid c).inn.tx ≠ some uid ∧ (destroyTx uid c).out.tx ≠ some uid := by
+  refine ⟨findTx_destroyTx uid c, ?_, ?_⟩
+  · unfold destroyTx
+    simp only
+    split
+    · simp
+    · rename_i h; simpa using h
+  · unfold destroyTx
+    simp only
+    split
+    · simp
+    · rename_i h; simpa using h
+
 end Htp.C01
